@@ -34,17 +34,35 @@ MODEL_MODE = 0 if os.environ.get("VERIF_C09_PINNED_MODEL") else 1
 KVALS = [0, 1, 2]
 JVALS = ["a", "b"]
 SORT_KEYS = ["none", "part", "rows"]
+MAX_FAILING = 25      # failing histories processed per run (the witnesses come first); the rest is only counted
 
 
 # ---------------------------------------------------------------------------------------------
 # histories (pure data)
 # ---------------------------------------------------------------------------------------------
-def gen_frame(rng, pcols, n, next_id, kvals=None):
+# partition value pools; the second and third hold values whose TEXT is a proper prefix of another value's text
+# (k=1 / k=10 / k=11, j=a / j=ab / j=abc): directory names of different partitions then share a prefix
+KPOOLS = [[0, 1, 2], [1, 10, 11, 2, 21], [1, 10]]
+JPOOLS = [["a", "b"], ["a", "ab", "abc", "b"], ["a", "ab"]]
+
+
+def gen_frame(rng, pcols, n, next_id, kvals=None, jvals=None):
     kv = kvals or KVALS
+    jv = jvals or JVALS
     rows = []
     for i in range(n):
-        rows.append({"x": next_id + i, "y": rng.choice([0.5, 1.5, -2.0]), "k": rng.choice(kv), "j": rng.choice(JVALS)})
+        rows.append({"x": next_id + i, "y": rng.choice([0.5, 1.5, -2.0]), "k": rng.choice(kv), "j": rng.choice(jv)})
     return rows
+
+
+def sub_pool(rng, pool):
+    """the values a new frame draws from: the whole pool, one value only (the shorter or the longer of a prefix pair), or a random subset"""
+    r = rng.random()
+    if r < 0.35:
+        return list(pool)
+    if r < 0.7:
+        return [rng.choice(pool)]
+    return rng.sample(pool, rng.randrange(1, len(pool) + 1))
 
 
 def offsets(rng, n):
@@ -60,7 +78,9 @@ def gen_history(rng, hid, maxlen=6):
         pcols = ["j", "k"]
     nid = 0
     n = rng.choice([1, 2, 4, 6, 8])
-    ops = [{"op": "write", "frame": gen_frame(rng, pcols, n, nid), "offsets": None}]
+    kpool = rng.choice(KPOOLS)
+    jpool = rng.choice(JPOOLS)
+    ops = [{"op": "write", "frame": gen_frame(rng, pcols, n, nid, kpool, jpool), "offsets": None}]
     ops[0]["offsets"] = offsets(rng, n)
     nid += n
     for _ in range(rng.randrange(0, maxlen)):
@@ -71,8 +91,7 @@ def gen_history(rng, hid, maxlen=6):
                         "all": rng.random() < 0.06, "sort_pnames": rng.random() < 0.5})
             continue
         n = rng.choice([1, 2, 3, 5, 6])
-        kv = rng.choice([KVALS, [0], [1, 2], KVALS])
-        o = {"op": kind, "frame": gen_frame(rng, pcols, n, nid, kv), "offsets": offsets(rng, n)}
+        o = {"op": kind, "frame": gen_frame(rng, pcols, n, nid, sub_pool(rng, kpool), sub_pool(rng, jpool)), "offsets": offsets(rng, n)}
         nid += n
         if kind == "writergs":
             o["sort_key"] = rng.choice(SORT_KEYS)
@@ -89,6 +108,25 @@ def design_witness():
         {"op": "write", "frame": fr([0, 1, 0, 0], 0), "offsets": [0, 3]},
         {"op": "append", "frame": fr([1, 0], 4), "offsets": [0]},
         {"op": "overwrite", "frame": fr([1, 0, 0, 1, 1], 6), "offsets": [0, 2, 4]}]}
+
+
+def prefix_witnesses():
+    """partition values in a prefix relation: overwriting the shorter value must leave the longer ones alone, and vice versa"""
+    def fr(vals, start):
+        return [{"x": start + i, "y": 0.5, "k": k, "j": j} for i, (k, j) in enumerate(vals)]
+    return [
+        {"id": 900011, "pcols": ["k"], "ops": [
+            {"op": "write", "frame": fr([(1, "a"), (10, "a"), (11, "a"), (1, "a"), (2, "a")], 0), "offsets": [0, 3]},
+            {"op": "overwrite", "frame": fr([(1, "a")], 5), "offsets": [0]},
+            {"op": "overwrite", "frame": fr([(10, "a")], 6), "offsets": [0]}]},
+        {"id": 900012, "pcols": ["k", "j"], "ops": [
+            {"op": "write", "frame": fr([(1, "a"), (1, "ab"), (1, "abc"), (10, "a"), (1, "b")], 0), "offsets": [0, 2]},
+            {"op": "overwrite", "frame": fr([(1, "a")], 5), "offsets": [0]},
+            {"op": "overwrite", "frame": fr([(1, "abc")], 6), "offsets": [0]}]},
+        {"id": 900013, "pcols": ["j", "k"], "ops": [
+            {"op": "write", "frame": fr([(1, "a"), (10, "a"), (1, "ab"), (11, "a")], 0), "offsets": [0, 2]},
+            {"op": "overwrite", "frame": fr([(1, "a")], 4), "offsets": [0]}]},
+    ]
 
 
 def emptied_history(pcols, hid):
@@ -311,22 +349,24 @@ def run(ctx):
     ctx.rule = ("history = initial hive write (0..2 partition columns, 1..8 rows, 1..4 row groups) + 0..5 operations over {append, append='overwrite', "
                 "remove_row_groups(subset, sort_pnames), write_row_groups(sort_key in none/partition/num_rows, sort_pnames)} with generated frames; a fresh "
                 "ParquetFile is opened for every step and for every observation; a case is (history, step); the initial write of a history is the only trivial one; "
-                "plus the DESIGN witness history and 2 confirmation histories for the open finding (dataset emptied, then append)")
-    hs = [design_witness(), emptied_history(["k"], 900002), emptied_history([], 900003)] + [gen_history(rng, i) for i in range(nh)]
+                "partition values are drawn per history from pools of which two hold prefix-related texts (k in 1/10/11/2/21, j in a/ab/abc/b) and every new frame "
+                "from the whole pool, one value only, or a random subset; plus the DESIGN witness history, 3 prefix-value witness histories and 2 confirmation "
+                "histories for the open finding (dataset emptied, then append)")
+    hs = [design_witness(), emptied_history(["k"], 900002), emptied_history([], 900003)] + prefix_witnesses() + [gen_history(rng, i) for i in range(nh)]
     cdir = os.path.join(C.VERIF, "corpus", "C09")
     if os.path.isdir(cdir):
         for i, f in enumerate(sorted(os.listdir(cdir))):
             h = json.load(open(os.path.join(cdir, f)))["history"]
             h["id"] = 100000 + i
             hs.insert(0, h)
-    results = C.pmap(run_history, [(h, ctx.scratch) for h in hs], nproc=8 if ctx.quick() else 12, job_timeout=60)
+    results = C.pmap(run_history, [(h, ctx.scratch) for h in hs], nproc=8 if ctx.quick() else 12, job_timeout=30)
     by_id = {h["id"]: h for h in hs}
     # a history whose worker process crashed (segfault / abort in native code) or hung: find the shortest crashing prefix and
     # report it as a failing input - the dataset cannot be read back at all
     crashed = [(h, r) for h, r in zip(hs, results) if isinstance(r, dict) and "__crashed__" in r]
     for h, r in crashed[:5]:
         pre = [{"id": h["id"] * 10 + n, "pcols": h["pcols"], "ops": h["ops"][:n]} for n in range(1, len(h["ops"]) + 1)]
-        rr = C.pmap(run_history, [(x, ctx.scratch) for x in pre], nproc=4, job_timeout=60)
+        rr = C.pmap(run_history, [(x, ctx.scratch) for x in pre], nproc=4, job_timeout=30)
         bad = [x for x, y in zip(pre, rr) if isinstance(y, dict) and "__crashed__" in y]
         hh = bad[0] if bad else h
         o = hh["ops"][-1]
@@ -351,8 +391,12 @@ def run(ctx):
         raise RuntimeError("pqref answered %d of %d commands" % (len(outs), len(cmds)))
     from harness import dsedit2_lib as L
     ctx.extra["extraction_vs_kernel_examples"] = L.extract_agreement(ctx, "C09", cmds, outs)
+    nfailing = 0
     for res, mo in zip(results, outs):
         h = by_id[res["id"]]
+        if nfailing >= MAX_FAILING:          # enough failing histories reported: keep the wall time bounded on a broken tree
+            ctx.count("skipped_after_failure_cap", 1)
+            continue
         ctx.count("partition_columns", len(h["pcols"]))
         ctx.count("history_length", len(h["ops"]))
         if not isinstance(mo, list) or len(mo) != len(h["ops"]):
@@ -372,8 +416,9 @@ def run(ctx):
             if refused and spec is not None and o["op"] != "write":
                 problems.insert(0, ("operation-refused", "%s raised %s" % (o["op"], obs["raised"])))
             emptied = si > 0 and not res["steps"][si - 1].get("summary")
+            newfail = False
             for sym, text in problems:
-                ctx.fail({"component": "dataset-edit", "symptom": sym, "op": o["op"], "partitioned": bool(h["pcols"]),
+                newfail |= ctx.fail({"component": "dataset-edit", "symptom": sym, "op": o["op"], "partitioned": bool(h["pcols"]),
                           "emptied_before": bool(emptied), "sort_pnames": bool(o.get("sort_pnames") or o["op"] == "overwrite")},
                          {**case, "observed": {"raised": obs["raised"], "summary": obs.get("summary"), "files": {k: v.get("ids") for k, v in obs["files"].items()},
                                                "num_rows": obs.get("num_rows"), "read": obs.get("read")}}, text)
@@ -399,6 +444,7 @@ def run(ctx):
             if spec is not None and acc:
                 ctx.correspondence("abs(model state) = spec_step (plain model) on this history", short, files_sx(mabs), spec)
             if problems or not ok:
+                nfailing += 1 if (newfail or not ok) else 0       # reproductions of an open finding do not use up the cap
                 break            # the real state has left the model: later steps of this history say nothing new
 
 
